@@ -9,7 +9,7 @@ import collections
 import importlib
 import re
 
-PROP_GROUPS = {'C16': ['concat', 'duplicate'], 'C12': ['sortkey'], 'C04': ['driver'], 'C15': ['fields', 'delete_schema', 'select_schema', 'get_type'], 'C01': ['flow'], 'C07': ['flow', 'ejson', 'ejson_hook'], 'C11': ['join'], 'C02': ['join', 'get_type'], 'C10': ['matcher'], 'C14': ['handlers', 'vloop'], 'C17': ['rows'], 'C13': ['load']}
+PROP_GROUPS = {'C20': ['sql'], 'C16': ['concat', 'duplicate'], 'C12': ['sortkey'], 'C04': ['driver'], 'C15': ['fields', 'delete_schema', 'select_schema', 'get_type'], 'C01': ['flow'], 'C07': ['flow', 'ejson', 'ejson_hook'], 'C11': ['join'], 'C02': ['join', 'get_type'], 'C10': ['matcher'], 'C14': ['handlers', 'vloop'], 'C17': ['rows'], 'C13': ['load']}
 
 
 # ---------------------------------------------------------------- encoding
@@ -478,6 +478,82 @@ def run_get_type(ctx, b, n):
         srcs = rng.sample(['a', 'b', 'c', 'd', 'e', 'zz'], rng.randint(0, 3))
         op = rng.choice(sorted(AC.AGGREGATORS))
         b.add('computed_get_type', [fields, srcs, op], real_call(AC.get_type, fields, srcs, op), case=[fields, srcs, op])
+    b.flush()
+
+
+def run_sql(ctx, b, n):
+    """dump_to_sql's reading of `mode`: the real SQLDumper.process_resource on a recording storage (is the table dropped
+    first? which update keys reach storage.write?) against the two translated `if` statements"""
+    TS = importlib.import_module('dataflows.processors.dumpers.to_sql')
+    rng = ctx.rng('pycorr-sql')
+
+    class Dialect:
+        name = 'sqlite'
+
+    class Engine:
+        dialect = Dialect()
+
+    class Res:
+        pass
+
+    for _ in range(n):
+        mode = rng.choice(['rewrite', 'append', 'update', 'update', None])
+        exists = rng.random() < 0.5
+        uk = rng.choice([None, None, ['a'], ['a', 'b'], []])
+        pk = rng.choice([None, ['id'], 'id', []])
+        conv = {'resource-name': 'r'}
+        if mode is not None:
+            conv['mode'] = mode
+        if uk is not None:
+            conv['update_keys'] = uk
+        schema = {'fields': [{'name': 'id', 'type': 'integer'}]}
+        if pk is not None:
+            schema['primaryKey'] = pk
+        calls = []
+
+        class FakeStorage:
+            def __init__(self, engine, prefix=None):
+                self.buckets = [''] if exists else []
+
+            def delete(self, bucket):
+                calls.append(('delete', bucket))
+                self.buckets = []
+
+            def create(self, bucket, sch, indexes_fields=None):
+                calls.append(('create', bucket))
+                self.buckets = ['']
+
+            def describe(self, bucket, sch):
+                calls.append(('describe', bucket))
+
+            def write(self, bucket, rows, **kw):
+                calls.append(('write', kw.get('update_keys')))
+                return iter(())
+
+        saved = TS.Storage
+        TS.Storage = FakeStorage
+        try:
+            d = TS.SQLDumper({'t': dict(conv)}, engine=Engine())
+            rw = Res()
+            rw.res = Res()
+            rw.res.name = 'r'
+            rw.res.descriptor = {'schema': schema}
+            d.process_resource(rw)
+        finally:
+            TS.Storage = saved
+        writes = [c[1] for c in calls if c[0] == 'write']
+        if len(writes) != 1:
+            ctx.report.note('pycorr-sql: %d writes' % len(writes))
+            continue
+        eff = conv.get('mode', 'rewrite')
+        storage_pv = to_pv({'buckets': [''] if exists else []})
+        dropped = any(c[0] == 'delete' for c in calls)
+        b.add('sql_rewrite_drop', [eff, {'buckets': [''] if exists else []}], {'err': 'user'} if dropped else {'ok': []},
+              ext=[['.delete', [storage_pv, to_pv('')], {'raise': 'dropped'}]], case=[eff, exists])
+        op = {'op': 'pyeval', 'fn': 'sql_update_keys', 'mode': 'value', 'args': [], 'want': 'update_keys',
+              'env': [['mode', to_pv(eff)], ['converted_resource', to_pv(dict(conv, **{'table-name': 't'}))],
+                      ['schema_descriptor', to_pv(schema)], ['update_keys', to_pv(None)]]}
+        b.add_op(op, 'sql_update_keys', {'ok': writes[0]}, case=[eff, uk, pk])
     b.flush()
 
 
@@ -1137,7 +1213,7 @@ def run_flow(ctx, b, n):
     b.flush()
 
 
-RUNNERS = {'duplicate': run_duplicate, 'get_type': run_get_type, 'select_schema': run_select_schema, 'delete_schema': run_delete_schema, 'concat': run_concat, 'ejson_hook': run_ejson_hook, 'sortkey': run_sortkey, 'ejson': run_ejson, 'driver': run_driver, 'fields': run_fields, 'flow': run_flow, 'load': run_load, 'vloop': run_vloop, 'join': run_join, 'matcher': run_matcher, 'handlers': run_handlers, 'rows': run_rows}
+RUNNERS = {'sql': run_sql, 'duplicate': run_duplicate, 'get_type': run_get_type, 'select_schema': run_select_schema, 'delete_schema': run_delete_schema, 'concat': run_concat, 'ejson_hook': run_ejson_hook, 'sortkey': run_sortkey, 'ejson': run_ejson, 'driver': run_driver, 'fields': run_fields, 'flow': run_flow, 'load': run_load, 'vloop': run_vloop, 'join': run_join, 'matcher': run_matcher, 'handlers': run_handlers, 'rows': run_rows}
 
 
 def run(ctx, groups=None, n=None):
